@@ -23,7 +23,8 @@ def cases(tier, seed, args):
         out.append(dict(t='scene', K=K, D=int(rng.integers(K + 1, 9 if not q else 6)), F=33 if q else int(rng.choice([33, 65, 257])),
                         T=int(rng.integers(60, 100 if q else 201)), model=['cacgmm', 'cwmm'][(i // 2) % 2],
                         seed=int(rng.integers(1 << 30)), names=(NAMES[:4] + ['wmwf']) if q else NAMES,
-                        amp=[1.0, 1e-3, 1e3, 1e-4][i % 4]))       # recording level: the whole chain is scale free
+                        amp=[1.0, 1e-3, 1e3, 1e-4][i % 4],        # recording level: the whole chain is scale free
+                        noise=[1e-2, 1e-4, 1e-3, 1e-5][(i // 2) % 4]))   # sensor noise 40 .. 100 dB below the sources
     return out
 
 
@@ -41,7 +42,7 @@ def run_case(case):
     images = np.zeros((K, F, D, T), complex)          # per-source images
     for k in range(K):
         images[k] = np.einsum('fd,ft->fdt', steer[:, k], s * (truth == k))
-    noise = 1e-2 * (rng.normal(size=(F, D, T)) + 1j * rng.normal(size=(F, D, T)))     # -40 dB
+    noise = case.get('noise', 1e-2) * (rng.normal(size=(F, D, T)) + 1j * rng.normal(size=(F, D, T)))     # -40 dB and below
     amp = case.get('amp', 1.0)
     images = images * amp
     Y = images.sum(0) + noise * amp                                                     # (F, D, T)
@@ -65,7 +66,7 @@ def run_case(case):
     init = 0.7 * init + 0.3 / K
     trainer = CACGMMTrainer() if case['model'] == 'cacgmm' else CWMMTrainer()
     obs_mm = np.ascontiguousarray(np.transpose(Y, (0, 2, 1)))                           # (F, T, D)
-    fp = f't=scene;model={case["model"]};K={K};F={F};amp={amp:g}'
+    fp = f't=scene;model={case["model"]};K={K};F={F};amp={amp:g};noise={case.get("noise", 1e-2):g}'
     key = f'scene:{case["seed"]}'
     model, exc = call(trainer.fit, obs_mm, initialization=init, iterations=10)
     if model is None:
